@@ -30,6 +30,7 @@ def run(ctx):
     ctx.guard(shared, ctx)
     from . import c02 as _c02, c10 as _c10
     ctx.shared(_c02.pair_and_kinds, ctx, am)   # the batch connect of populate_connections is mirrored on both directed links
+    ctx.shared(_c02.swap, ctx, am)             # new() / clone() relate through _find_link: it must pick the association the loader would join
     ctx.shared(_c10.typecase, ctx, ['xtuml.meta'], 'C10-TYPECASE')   # _is_null decides which referential values count as null
     ctx.shared(_c10.access, ctx)      # the loader reads key values through Class.__getattr__ (raw stored value first, declared cell otherwise)
     ctx.shared(_c10.normalise, ctx)   # column names of a named INSERT are matched to the declared attributes whatever their case
